@@ -53,11 +53,13 @@ Do(e) == /\ Guard(St, e) = ""
          /\ UNCHANGED <<orig, init0>>
 
 (* ---- one writer's own steps --------------------------------------------------- *)
-Mkdir(w)     == \E res \in {"ok", "exists"} : Do(Ev(w, "mkdir", res, 0, 0))
+\* (the operators of AtomicWriteOps also accept a writer that skips or repeats the mkdir, and any way of
+\* reporting the outcome; the modelled design makes sure of the directory once and raises on failure)
+Mkdir(w)     == wr[w].pc = "idle" /\ \E res \in {"ok", "exists"} : Do(Ev(w, "mkdir", res, 0, 0))
 Untried(w)   == (1..NNames) \ wr[w].tried
 Picks(w)     == IF AnyName \/ Untried(w) = {} THEN Untried(w)
                 ELSE {CHOOSE k \in Untried(w) : \A j \in Untried(w) : k <= j}
-TryOpen(w)   == \E k \in Picks(w), res \in {"ok", "exists"} : Do(Ev(w, "open", res, 0, k))
+TryOpen(w)   == wr[w].pc = "open" /\ \E k \in Picks(w), res \in {"ok", "exists"} : Do(Ev(w, "open", res, 0, k))
 BodyCall(w)  == wr[w].acc < MaxBody /\ Do(Ev(w, "bcall", "ok", 1, 0))
 RawWrite(w)  == \E n \in (IF AnySplit THEN 1..(wr[w].acc - wr[w].raw) ELSE {wr[w].acc - wr[w].raw}) :
                     Do(Ev(w, "write", "ok", n, 0))
@@ -65,7 +67,7 @@ EndBody(w)   == wr[w].acc >= MinBody /\ Do(Ev(w, "endbody", "ok", 0, 0))
 Close(w)     == Do(Ev(w, "close", "ok", 0, 0))
 Rename(w)    == Do(Ev(w, "replace", "ok", 1, wr[w].i))
 Unlink(w)    == Do(Ev(w, "unlink", "ok", 0, wr[w].i))
-Return(w)    == \E res \in {"ok", "raised"} : Do(Ev(w, "end", res, 0, 0))
+Return(w)    == wr[w].pc \in {"done", "failed"} /\ Do(Ev(w, "end", IF wr[w].pc = "done" THEN "ok" ELSE "raised", 0, 0))
 Progress(w)  == \/ Mkdir(w) \/ TryOpen(w) \/ BodyCall(w) \/ RawWrite(w) \/ EndBody(w)
                 \/ Close(w) \/ Rename(w) \/ Unlink(w) \/ Return(w)
 
@@ -74,8 +76,8 @@ BodyError(w) == Do(Ev(w, "bodyerr", "ok", 0, 0))
 \* the caller uses the same writer object for another write of the same destination
 Reenter(w)   == w \in Reusers /\ wr[w].round < MaxRounds /\ Do(Ev(w, "reenter", "ok", 0, 0))
 Crash(w)     == Do(Ev(w, "crash", "ok", 0, 0))
-Fault(w)     == \/ Do(Ev(w, "mkdir", "fault", 0, 0))
-                \/ \E k \in Picks(w) : Do(Ev(w, "open", "fault", 0, k))
+Fault(w)     == \/ (wr[w].pc = "idle" /\ Do(Ev(w, "mkdir", "fault", 0, 0)))
+                \/ (wr[w].pc = "open" /\ \E k \in Picks(w) : Do(Ev(w, "open", "fault", 0, k)))
                 \/ \E n \in (IF AnySplit THEN 1..(wr[w].acc - wr[w].raw) ELSE {wr[w].acc - wr[w].raw}) :
                        Do(Ev(w, "write", "fault", n, 0))
                 \/ Do(Ev(w, "close", "fault", 0, 0))
